@@ -1,7 +1,11 @@
 import TbbVerif.Core.Proto
+import TbbVerif.Model.C13
 
 open TbbVerif
 
-def drivers : List (String × Proto.Driver) := []
+def drivers : List (String × Proto.Driver) := [
+  ("c13", C13.driver),
+  ("c13agg", C13.driverAgg)
+]
 
 def main (args : List String) : IO UInt32 := Proto.mainOf drivers args
